@@ -67,6 +67,7 @@ def run_vector(vec, emb, pool, eid, recv=None, argt_obj=None):
     textgrid, errors, _ = T.praatio()
     pj = T.Proj(emb, pool)
     g = emb.g
+    fresh = recv is None
     if recv is None:
         recv = mk_tg(vec["pre"], emb, pool, primed=(eid % 4 == 1))
     if argt_obj is not None:
@@ -182,6 +183,18 @@ def run_vector(vec, emb, pool, eid, recv=None, argt_obj=None):
         "pool": next((k for k, v in T.POOLS.items() if v is pool), "ascii"),
     }
     ev["offgrid"] = pj.offgrid
+    # behavioural probe (one fresh replay in four): an entry deleted from every tier of the returned textgrid must not show in
+    # the receiver or in the argument textgrid
+    if op == "newTg" and isinstance(ret, textgrid.Textgrid) and fresh and eid % 2 == 0 and not alias:
+        try:
+            with contextlib.redirect_stdout(io.StringIO()):
+                for t in ret.tiers:
+                    if len(t.entries):
+                        t.deleteEntry(t.entries[0])
+            pj2 = T.Proj(emb, pool)
+            ev["alias"] = bool(proj_tg(pj2, recv) != ev["post"] or proj_tg(pj2, argtg) != ev["argtgpost"])
+        except Exception:  # noqa - the probe itself is not under test
+            pass
     return ev, ret
 
 
